@@ -137,6 +137,46 @@ pub async fn exec(f: u32, a: &Args) -> Args {
             server.close(vi(0), b"");
             vec![vec![1, alive, (elapsed >= idle.saturating_sub(50)) as u64], cause]
         }
+        // client keep-alive, in either order with an unlimited local idle timeout, against a server whose
+        // idle timeout is 1.2 s: [order (0 keep-alive then idle(None), 1 idle(None) then keep-alive, 2 keep-alive only), keepalive_ms]
+        753 => {
+            let (order, ka) = (a[0][0], a[0][1]);
+            let scfg = ServerConfig::builder().with_bind_address("127.0.0.1:0".parse().unwrap()).with_identity(identity())
+                .max_idle_timeout(Some(Duration::from_millis(1200))).unwrap().build();
+            let server = Endpoint::server(scfg).unwrap();
+            let port = server.local_addr().unwrap().port();
+            let b = ClientConfig::builder().with_bind_default().with_no_cert_validation();
+            let kai = if ka > 0 { Some(Duration::from_millis(ka)) } else { None };
+            let ccfg = match order {
+                0 => b.keep_alive_interval(kai).max_idle_timeout(None).unwrap().build(),
+                1 => b.max_idle_timeout(None).unwrap().keep_alive_interval(kai).build(),
+                _ => b.keep_alive_interval(kai).build(),
+            };
+            let client = Endpoint::client(ccfg).unwrap();
+            let url = format!("https://127.0.0.1:{}/ka", port);
+            let (s, c) = tokio::join!(wt_accept(&server), client.connect(&url));
+            let (sc, cc) = match (s, c) { (Ok(s), Ok(c)) => (s, c), _ => return vec![vec![2]] };
+            let r = tokio::time::timeout(Duration::from_millis(3000), cc.closed()).await;
+            let alive = r.is_err() as u64;
+            drop(sc);
+            server.close(vi(0), b"");
+            vec![vec![1, alive]]
+        }
+        // reload_config(rebind = false) with a configuration that names the address already in use
+        772 => {
+            let id1 = wtransport::Identity::self_signed(["localhost"]).unwrap();
+            let id2 = wtransport::Identity::self_signed(["localhost"]).unwrap();
+            let h2 = id2.certificate_chain().as_slice()[0].hash();
+            let server = Endpoint::server(ServerConfig::builder().with_bind_address("127.0.0.1:0".parse().unwrap()).with_identity(id1).build()).unwrap();
+            let addr = server.local_addr().unwrap();
+            let same = ServerConfig::builder().with_bind_address(addr).with_identity(id2).build();
+            let rl = server.reload_config(same, false).is_ok() as u64;
+            let client = Endpoint::client(ClientConfig::builder().with_bind_default().with_server_certificate_hashes([h2]).build()).unwrap();
+            let url = format!("https://127.0.0.1:{}/r", addr.port());
+            let (s, c) = tokio::join!(wt_accept(&server), tokio::time::timeout(Duration::from_millis(2000), client.connect(&url)));
+            let newid = (s.is_ok() && matches!(c, Ok(Ok(_)))) as u64;
+            vec![vec![1, rl, newid, (server.local_addr().unwrap().port() == addr.port()) as u64]]
+        }
         // ALPN / TLS: a raw client offering another ALPN is refused; the established connection reports h3
         761 => {
             let (server, addr) = wt_server(None);
@@ -156,13 +196,15 @@ pub async fn exec(f: u32, a: &Args) -> Args {
             let app = tokio::spawn(async move {
                 let r = wt_accept(&server).await;
                 let alpn = r.as_ref().ok().and_then(|c| c.handshake_data().alpn().map(|x| x.to_vec())).unwrap_or_default();
-                (r.is_ok(), alpn, server)
+                // the connection is kept until the peer has read the response (dropping it here would
+                // race with the peer's read)
+                (r.is_ok(), alpn, server, r.ok())
             });
             let connected = match tokio::time::timeout(Duration::from_millis(900), ep.connect(addr, "localhost").unwrap()).await {
                 Ok(Ok(c)) => { let r = raw_establish_on(c, "/alpn").await; r.is_ok() as u64 }
                 _ => 0,
             };
-            let (ok, alpn, _server) = app.await.unwrap();
+            let (ok, alpn, _server, _conn) = app.await.unwrap();
             vec![vec![1, connected, ok as u64], b2a(&alpn)]
         }
         // reload_config: a new identity for new connections, established ones keep working
@@ -255,6 +297,21 @@ pub fn oracle(f: u32, a: &Args, out: &Args) -> Option<(&'static str, String)> {
             }
             None
         }
+        753 => {
+            if out[0][0] == 1 && a[0][1] > 0 && out[0][1] != 1 {
+                return Some(("C20", format!("client keep-alive of {} ms requested (builder call order {}), server idle timeout 1200 ms: the idle connection died", a[0][1], a[0][0])));
+            }
+            if out[0][0] == 1 && a[0][1] == 0 && out[0][1] != 0 {
+                return Some(("C20", "no keep-alive requested and the server's idle timeout is 1200 ms, yet the silent connection survived 3 s".into()));
+            }
+            None
+        }
+        772 => {
+            if out[0][0] == 1 && out[0][1..] != [1, 1, 1] {
+                return Some(("C20", format!("reload_config(rebind = false) with the address already in use: accepted={} new identity served={} same port={}", out[0][1], out[0][2], out[0][3])));
+            }
+            None
+        }
         761 => {
             if a[0][0] == 0 && (out[0][1] != 1 || out[1] != vec![104, 51]) {
                 return Some(("C20", format!("h3 client: connected={} alpn={:?}", out[0][1], out[1])));
@@ -316,6 +373,10 @@ pub fn generate(rng: &mut Rng, thorough: bool, which: &str) -> Vec<Case> {
                 cs.push(Case::new(751, vec![vec![s, 0]], "representability-wrap"));
                 cs.push(Case::new(751, vec![vec![s, 999_000_000]], "representability-wrap"));
             }
+            for order in 0..3u64 {
+                cs.push(Case::new(753, vec![vec![order, 300]], "client-keep-alive"));
+            }
+            cs.push(Case::new(753, vec![vec![0, 0]], "client-no-keep-alive"));
             cs.push(Case::new(752, vec![vec![400, 0, 1500]], "idle-expires"));
             cs.push(Case::new(752, vec![vec![500, 120, 1300]], "keep-alive-holds"));
             cs.push(Case::new(752, vec![vec![5000, 0, 700]], "long-idle-alive"));
@@ -328,6 +389,7 @@ pub fn generate(rng: &mut Rng, thorough: bool, which: &str) -> Vec<Case> {
         "reload" => {
             cs.push(Case::new(771, vec![vec![0]], "reload-no-rebind"));
             cs.push(Case::new(771, vec![vec![1]], "reload-rebind"));
+            cs.push(Case::new(772, vec![vec![0]], "reload-same-address-no-rebind"));
         }
         _ => {}
     }
